@@ -141,6 +141,21 @@ def gen_case(rng, dom):
     return dict(dom=dom, rounds=rounds)
 
 
+def deep_chain_cases(rng, count):
+    """role chains deeper than the role manager's hierarchy bound (10): the level rounds must place every subject,
+    however deep; rules arrive root first (the worst order), every subject's own rule contradicts its parent's"""
+    for _ in range(count):
+        n = rng.randint(11, 16)
+        names = [f"u{i}" for i in range(n)]                       # u0 is the root role, u(n-1) the deepest subject
+        g = [("g+", [names[i + 1], names[i]]) for i in range(n - 1)]
+        if rng.random() < 0.5:
+            rng.shuffle(g)
+        p = [("p+", [names[i], "data1", "read", "allow" if i % 2 == 0 else "deny"]) for i in range(n)]
+        if rng.random() < 0.3:
+            rng.shuffle(p)
+        yield dict(dom=False, rounds=[g + p])
+
+
 def exhaustive_cases():
     """all hierarchies on 3 names (every subset of the 9 ordered pairs incl. self-loops: 512) with one rule per
     name in each of the 6 arrival orders is too many for quick; take all 512 graphs x 2 arrival orders"""
@@ -310,6 +325,8 @@ def run(chk, oracle, n_random, exhaustive=True, seed_cases=()):
         cases += list(exhaustive_cases())
     for i in range(n_random):
         cases.append(gen_case(chk.rng, dom=(i % 2 == 1)))
+    if n_random:
+        cases += list(deep_chain_cases(chk.rng, max(4, n_random // 60)))
     all_obs = [run_impl(c) for c in cases]
     reqs, index = [], []
     for ci, (c, obs) in enumerate(zip(cases, all_obs)):
